@@ -54,6 +54,141 @@ Definition content_text (c : content) : str :=
   | CTree l => concat (map jdump l)
   end.
 
+(* ---------------------------------------------------------------- JSON parser for the subset sjson.py writes (json.load) *)
+(* whitespace between tokens: space, \t, \n, \r *)
+Definition jws (c : byte) : bool :=
+  byte_eqb c " "%byte || byte_eqb c x09 || byte_eqb c x0a || byte_eqb c x0d.
+Definition jskip (s : str) : str := dropwhile jws s.
+Definition hexval (c : byte) : option N :=
+  match c with
+  | "0" => Some 0 | "1" => Some 1 | "2" => Some 2 | "3" => Some 3 | "4" => Some 4 | "5" => Some 5 | "6" => Some 6
+  | "7" => Some 7 | "8" => Some 8 | "9" => Some 9
+  | "a" | "A" => Some 10 | "b" | "B" => Some 11 | "c" | "C" => Some 12 | "d" | "D" => Some 13 | "e" | "E" => Some 14
+  | "f" | "F" => Some 15
+  | _ => None
+  end%N%byte.
+Definition byte_of_N (n : N) : byte := match Byte.of_N n with Some b => b | None => x00 end.
+Definition jcons (b : byte) (o : option (str * str)) : option (str * str) :=
+  match o with Some (x, y) => Some (b :: x, y) | None => None end.
+(* the body of a string after the opening quote: (decoded characters, rest after the closing quote);
+   \u escapes above 00ff are outside Latin-1: rejected *)
+Fixpoint jparse_chars (s : str) : option (str * str) :=
+  match s with
+  | [] => None
+  | c :: r =>
+      if byte_eqb c DQ then Some ([], r)
+      else if byte_eqb c BSL then
+        match r with
+        | e :: r2 =>
+            match e with
+            | x22 => jcons DQ (jparse_chars r2)
+            | x5c => jcons BSL (jparse_chars r2)
+            | x2f => jcons "/"%byte (jparse_chars r2)
+            | x6e => jcons x0a (jparse_chars r2)
+            | x72 => jcons x0d (jparse_chars r2)
+            | x74 => jcons x09 (jparse_chars r2)
+            | x62 => jcons x08 (jparse_chars r2)
+            | x66 => jcons x0c (jparse_chars r2)
+            | x75 =>
+                match r2 with
+                | a :: b :: h :: l :: r3 =>
+                    match hexval a, hexval b, hexval h, hexval l with
+                    | Some 0%N, Some 0%N, Some hi, Some lo => jcons (byte_of_N (hi * 16 + lo)) (jparse_chars r3)
+                    | _, _, _, _ => None
+                    end
+                | _ => None
+                end
+            | _ => None
+            end
+        | [] => None
+        end
+      else if N.ltb (Byte.to_N c) 32 then None           (* control characters must be escaped (strict) *)
+      else jcons c (jparse_chars r)
+  end.
+
+Section Items.
+  Variable pv : str -> option (tree * str).
+  (* after '[' (non-empty list) or ',': a value, then ',' or ']' *)
+  Fixpoint jlist_items (n : nat) (s : str) : option (list tree * str) :=
+    match n with
+    | O => None
+    | S m =>
+        match pv s with
+        | Some (v, s1) =>
+            match jskip s1 with
+            | x2c :: s2 => match jlist_items m s2 with Some (vs, y) => Some (v :: vs, y) | None => None end
+            | x5d :: y => Some ([v], y)
+            | _ => None
+            end
+        | None => None
+        end
+    end.
+  (* after '{' (non-empty object) or ',': "key" : value, then ',' or '}' *)
+  Fixpoint jdict_items (n : nat) (s : str) : option (list (str * tree) * str) :=
+    match n with
+    | O => None
+    | S m =>
+        match jskip s with
+        | x22 :: s0 =>
+            match jparse_chars s0 with
+            | Some (key, s1) =>
+                match jskip s1 with
+                | x3a :: s2 =>
+                    match pv s2 with
+                    | Some (v, s3) =>
+                        match jskip s3 with
+                        | x2c :: s4 => match jdict_items m s4 with Some (vs, y) => Some ((key, v) :: vs, y) | None => None end
+                        | x7d :: y => Some ([(key, v)], y)
+                        | _ => None
+                        end
+                    | None => None
+                    end
+                | _ => None
+                end
+            | None => None
+            end
+        | _ => None
+        end
+    end.
+End Items.
+
+(* a value; fuel bounds the nesting depth and the number of items of one container *)
+Fixpoint jparse_val (fuel : nat) (s : str) : option (tree * str) :=
+  match fuel with
+  | O => None
+  | S k =>
+      match jskip s with
+      | x22 :: r => match jparse_chars r with Some (x, y) => Some (TStr x, y) | None => None end
+      | x6e :: r => match strip_prefix (bs "ull"%bs) r with Some y => Some (TNull, y) | None => None end
+      | x5b :: r =>
+          match jskip r with
+          | x5d :: y => Some (TList [], y)
+          | _ => match jlist_items (jparse_val k) k r with Some (vs, y) => Some (TList vs, y) | None => None end
+          end
+      | x7b :: r =>
+          match jskip r with
+          | x7d :: y => Some (TDict [], y)
+          | _ => match jdict_items (jparse_val k) k r with Some (vs, y) => Some (TDict vs, y) | None => None end
+          end
+      | _ => None
+      end
+  end.
+
+(* json.load of the characters of a file: one value, nothing but whitespace after it; the object hook of sjson.py on the tree *)
+Definition jload (t : str) : option tree :=
+  match jparse_val (length t) t with
+  | Some (tr, rest) => match jskip rest with [] => Some tr | _ => None end
+  | None => None
+  end.
+Definition read_sjson_text (t : str) : res (list bseq) :=
+  match jload t with Some tr => dec_basket tr | None => Err E_Value end.
+(* read(f, fmt) of a file with these characters *)
+Definition read_bytes (f : fmt) (t : str) : res (list bseq) :=
+  match f with
+  | Sjson => bind (read_sjson_text t) (fun b => Ok (map (set_fmt Sjson) b))
+  | _ => read_content f (CText t)
+  end.
+
 (* ---------------------------------------------------------------- the sniffers, in the order of their plugins *)
 (* f.read(n) on the text layer (universal newlines) *)
 Definition sniff_head (n : nat) (t : str) : str := firstn n (univ_nl t).
@@ -119,6 +254,13 @@ Definition read_auto (c : content) : res (list bseq) :=
   | Some nm => match fmt_of_name nm with Some f => read_content f c | None => Err E_NotModelled end
   end.
 
+(* the same on the characters of a file *)
+Definition read_auto_bytes (t : str) : res (list bseq) :=
+  match detect t with
+  | None => Err E_OS
+  | Some nm => match fmt_of_name nm with Some f => read_bytes f t | None => Err E_NotModelled end
+  end.
+
 (* ---------------------------------------------------------------- os.path.splitext on POSIX names, detect_ext, write by name *)
 Definition SLASH : byte := "/"%byte.
 Definition DOTB : byte := "."%byte.
@@ -168,13 +310,20 @@ Definition write_byname (p : str) (b : list bseq) : res content :=
 Definition show_name (o : option str) : val := VOpt VStr o.
 Definition show_read (r : res (list bseq)) : val := show_res (bind r (fun o => Ok (show_basket o))).
 (* mode 0: write the basket as fmt, detect the format of the bytes, read them without fmt;
-   mode 1: detect / read a literal text *)
+   mode 1: detect / read a literal text; mode 2: read SJSON bytes with the format given *)
+(* reader-side domain for SJSON bytes: JSON of the subset that decodes to a non-empty basket of legal records *)
+Definition wf_sjson_text (t : str) : bool :=
+  forallb text_char_ok t
+  && match read_bytes Sjson t with
+     | Ok b => match b with [] => false | _ => true end && forallb (rec_ok Sjson) b
+     | Err _ => false
+     end.
 Definition wf_detect_text (t : str) : bool :=
   forallb text_char_ok t && sniff_dom t
   && match detect t with
      | None => true
      | Some nm => match fmt_of_name nm with
-                  | Some Sjson => false
+                  | Some Sjson => wf_sjson_text t
                   | Some f => wf_text f t
                   | None => true
                   end
@@ -186,7 +335,8 @@ Definition run_C01_det (mode fmtn : N) (xs : list input_seq) (fl : list input_ft
   | 0%N => VL [VB (wf_C01 0 f xs [] fts []);
                show_res (bind (write_w_fts f fts (build xs)) (fun c =>
                          Ok (VL [VS (content_text c); show_name (detect (content_text c)); show_read (read_auto c)])))]
-  | _ => VL [VB (wf_detect_text t); VL [show_name (detect t); show_read (read_auto (CText t))]]
+  | 1%N => VL [VB (wf_detect_text t); VL [show_name (detect t); show_read (read_auto_bytes t)]]
+  | _ => VL [VB (wf_sjson_text t); show_read (read_bytes Sjson t)]          (* read(text, 'sjson') *)
   end.
 (* write(basket, name): extension, detected plugin, written bytes, what read(name) returns *)
 Definition name_char (c : byte) : bool := is_alnum c || mem c (bs "._-/"%bs).
